@@ -163,3 +163,11 @@ Fixpoint read_blobs (s : st) (ids : list N) : option (list bytes) :=
     | _, _ => None
     end
   end.
+
+(* ------------------------------------------------------------------ Part 7: the tree backup writes *)
+
+(* tree_archiver: one node per source entry, `Node::new_node(name, ..)` stores escape_filename(name);
+   entries arrive sorted by their (raw) name *)
+Definition mk_node (e : bytes * option N * N) : node :=
+  let '(raw, sub, tag) := e in mknode (escape raw) sub tag.
+Definition backup_tree (entries : list (bytes * option N * N)) : list node := map mk_node entries.
